@@ -1,0 +1,37 @@
+//go:build verif
+
+package hub
+
+import (
+	"github.com/streamingfast/bstream"
+	"github.com/streamingfast/bstream/forkable"
+)
+
+// Verification harness only (build tag verif): deterministic access to a subscription's queue
+// and to the hub's subscriber list.
+
+// VerifDrain removes and returns everything currently queued in the subscription, without blocking.
+func (s *Subscription) VerifDrain() (out []*bstream.PreprocessedBlock) {
+	for {
+		select {
+		case b := <-s.blocks:
+			out = append(out, b)
+		default:
+			return
+		}
+	}
+}
+
+// VerifCap returns the capacity of the subscription's queue.
+func (s *Subscription) VerifCap() int { return cap(s.blocks) }
+
+// VerifSubscribers returns how many subscriptions are registered.
+func (h *ForkableHub) VerifSubscribers() int { return len(h.subscribers) }
+
+// VerifForkable exposes the hub's Forkable for read-only lookups.
+func (h *ForkableHub) VerifForkable() *forkable.Forkable { return h.forkable }
+
+// VerifPoint is called at schedule points of the hub when built with the verif tag.
+var VerifPoint = func(name string) {}
+
+func verifPoint(name string) { VerifPoint(name) }
